@@ -15,8 +15,10 @@ package props
 import (
 	"bufio"
 	"bytes"
+	"context"
 	"encoding/json"
 	"fmt"
+	"hash/fnv"
 	"io/fs"
 	"os"
 	"os/exec"
@@ -66,6 +68,7 @@ type c12Obs struct {
 	Before    map[string]c12File `json:"before"`
 	After     map[string]c12File `json:"after"`
 	PriorErr  string             `json:"prior_err,omitempty"`
+	UnderCtx  bool               `json:"under_context,omitempty"` // judged run went through ExecuteContext with a context that is never cancelled
 }
 
 // c12SafeBuf is the Output/Error writer of in-process cases: a locked buffer without
@@ -212,6 +215,10 @@ func c12RunCase(cs *c12io.Case, sb, scratch string, marker func(tag string)) *c1
 		obs.ParseErr = "interp.New: " + err.Error()
 		return obs
 	}
+	hsum := fnv.New32a()
+	hsum.Write([]byte(c12io.Source(cs) + "|" + strings.Join(cs.Operands, "|")))
+	underCtx := cs.Mode != "traced" && hsum.Sum32()%2 == 1
+	obs.UnderCtx = underCtx
 	exec1 := func(fl c12io.Flags, calls *[]c12Call, mark bool) run.Outcome {
 		stdin, err := os.Open(stdinPath)
 		if err != nil {
@@ -241,7 +248,14 @@ func c12RunCase(cs *c12io.Case, sb, scratch string, marker func(tag string)) *c1
 		if mark {
 			marker("begin")
 		}
-		out := run.Exec(prog, cfg, run.Opts{Interp: ip})
+		opts := run.Opts{Interp: ip}
+		if underCtx {
+			// a caller with a cancellable context that never fires: the refusal must reach it all the same
+			ctx, cancel := context.WithCancel(context.Background())
+			defer cancel()
+			opts.Ctx = ctx
+		}
+		out := run.Exec(prog, cfg, opts)
 		if mark {
 			marker("end")
 		}
@@ -784,6 +798,9 @@ func c12RunAPI(c *core.Ctx, cs *c12io.Case) {
 	sb, scratch := filepath.Join(wd, "sb"), filepath.Join(wd, "scratch")
 	_ = os.MkdirAll(scratch, 0o755)
 	obs := c12RunCase(cs, sb, scratch, func(string) {})
+	if obs.UnderCtx {
+		c.Count("api_runs_under_never_cancelled_context", 1)
+	}
 	res := c12Judge(c, cs, obs, sb, nil)
 	c12Report(c, cs, obs, res)
 	if c.Replay {
